@@ -524,6 +524,9 @@ impl WebSocketContext {
     where
         Stream: Read + Write,
     {
+        // Nothing is left to flush on a terminated connection.
+        self.state.check_not_terminated()?;
+
         self._write(stream, None)?;
         self.frame.write_out_buffer(stream)?;
         stream.flush()?;
